@@ -14,8 +14,10 @@
    the *_pinned definitions are the functions of the pinned commit. *)
 From Coq Require Import ZArith List Bool.
 From PTK Require Import Lib.Sx Lib.Py Model.Document Model.BufferEdit Model.C02_DocQueries
-  Model.C08_ViOps Model.C08_TextObjects
+  Model.C08_ViOps Model.C08_TextObjects Model.C08_Session
   Gen.C08_Tables Proofs.BufferEditFacts Proofs.C08_ViFacts Proofs.C08_Lines Proofs.C08_WholeLines Proofs.C08_Failed
+  Proofs.C02_Base Proofs.C02_Coords Proofs.C02_WordsExact Proofs.C02_FindExact
+  Proofs.C08_SessionFacts Proofs.C08_LinewiseRange Proofs.C08_Spans
   Proofs.C08_Tables.
 Import ListNotations.
 Open Scope Z_scope.
@@ -316,6 +318,224 @@ Proof.
   - exact failed_down_transform_refuted.
 Qed.
 Print Assumptions C08_failed_motion_noop_refuted.
+
+(* ------------------------------------------------------------------ *)
+(* Linewise objects without range hypotheses (C02's coordinate lemmas): with
+   both ends of the object inside the text, operator_range expands to the
+   start of the first line and the end of the last line, in bounds and in
+   order; hence the linewise delete theorem needs only "ends inside the text". *)
+Theorem C08_operator_range_linewise : forall d o,
+  ttype o = LINEW ->
+  let lo := dcur d + Z.min (tstart o) (tend o) in
+  let hi := dcur d + Z.max (tstart o) (tend o) in
+  0 <= lo -> hi <= len (dtext d) ->
+  let f := dcur d + fst (operator_range d o) in
+  let t := dcur d + snd (operator_range d o) in
+  0 <= f /\ f <= lo /\ hi <= t /\ t <= len (dtext d).
+Proof. exact operator_range_linewise. Qed.
+Print Assumptions C08_operator_range_linewise.
+
+Theorem C08_delete_span_linewise_inbounds : forall delete_only st o ev,
+  ttype o = LINEW ->
+  let b := vbuf st in
+  let lo := bcur b + Z.min (tstart o) (tend o) in
+  let hi := bcur b + Z.max (tstart o) (tend o) in
+  0 <= lo -> hi <= len (btext b) ->
+  let a := line_lo (btext b) (bcur b + fst (operator_range (bdoc b) o)) in
+  let e := line_hi (btext b) (bcur b + snd (operator_range (bdoc b) o)) in
+  let removed := firstn (Z.to_nat (e - a)) (skipn (Z.to_nat a) (btext b)) in
+  0 <= a <= lo /\ hi <= e <= len (btext b) /\
+  vbuf (snd (op_delete delete_only false st o ev)) =
+    mkbuf (firstn (Z.to_nat a) (btext b) ++ skipn (Z.to_nat e) (btext b)) a /\
+  fst (op_delete delete_only false st o ev) = 0 /\
+  vclip (snd (op_delete delete_only false st o ev)) =
+    (if nonempty (strip_final_nl removed) then Some (mkcd (strip_final_nl removed) 1) else vclip st) /\
+  vreg (snd (op_delete delete_only false st o ev)) = vreg st.
+Proof. exact op_delete_linewise_inbounds. Qed.
+Print Assumptions C08_delete_span_linewise_inbounds.
+
+(* ------------------------------------------------------------------ *)
+(* The count bookkeeping of a session (Model/C08_Session.v). *)
+
+(* <count> operator <count> Esc changes nothing, and no count or operator
+   survives it: the keys that follow run from the cleared state, whatever
+   counts were typed (patched or not). *)
+Theorem C08_cancelled_operator_noop : forall p s ds1 k keys ds2 rest,
+  ks_op s = None -> vins (ks_vst s) = false ->
+  is_count (ks_arg s) ds1 -> is_count None ds2 ->
+  run_keys_gen p s (map KD ds1 ++ KO k keys :: map KD ds2 ++ KE :: rest) =
+  run_keys_gen p (cleared s) rest.
+Proof. exact cancelled_operator. Qed.
+Print Assumptions C08_cancelled_operator_noop.
+
+(* a completed operator command clears count and operator as well *)
+Theorem C08_applied_operator_clears : forall p s m status s',
+  ks_op s <> None -> key_step_gen p s (KM m) = (status, s') -> status <> 1 ->
+  ks_arg s' = None /\ ks_oparg s' = None /\ ks_op s' = None.
+Proof. exact applied_operator_clears. Qed.
+Print Assumptions C08_applied_operator_clears.
+
+(* the operator is applied to the text object of count (count before the
+   operator) x (count before the motion) - digits 0 included, see
+   C08_typed_digits - and to "no count" when none was typed *)
+Theorem C08_operator_motion_step : forall s k keys m o failed,
+  ks_op s = Some (k, keys) ->
+  let '(n, hc) := pending_count (ks_oparg s) (ks_arg s) in
+  text_object m (bdoc (vbuf (ks_vst s))) n hc = TO o failed ->
+  key_step s (KM m) =
+  (let '(status, st1) := run_op k (ks_vst s) o (mkev n keys) in
+   (status, mkks (if (status =? 0) && negb (vins st1) then with_buf st1 (fix_vi_cursor (vbuf st1)) else st1)
+                 None None None (Some (o, failed)))).
+Proof. exact operator_motion_step. Qed.
+Print Assumptions C08_operator_motion_step.
+
+(* digits typed before or after the operator only extend the count (a 0
+   after a non-empty count is a digit, not the start-of-line motion) *)
+Theorem C08_typed_digits : forall p ds s rest,
+  is_count (ks_arg s) ds -> vins (ks_vst s) = false ->
+  run_keys_gen p s (map KD ds ++ rest) = run_keys_gen p (with_arg s (typed (ks_arg s) ds)) rest.
+Proof. exact run_digits. Qed.
+Print Assumptions C08_typed_digits.
+
+(* ------------------------------------------------------------------ *)
+(* PROPOSAL (fixes/C08-failed-motion-cancels-operator.patch; the patched
+   variant key_step_gen true, tied to a patched tree by harness/c08_patched.py):
+   a failed text object - or an exclusive object with equal ends - cancels
+   EVERY operator (d c y, register variants, case operators, > < gq): text,
+   cursor, clipboard, registers and mode stay as they were, and the patch
+   changes nothing for an object that is neither. *)
+Theorem C08_failed_motion_noop_patched : forall s k keys m o,
+  ks_op s = Some (k, keys) ->
+  let '(n, hc) := pending_count (ks_oparg s) (ks_arg s) in
+  text_object m (bdoc (vbuf (ks_vst s))) n hc = TO o true ->
+  key_step_gen true s (KM m) = (0, cleared s).
+Proof.
+  intros s k keys m o Hop. pose proof (patched_cancels s k keys m o true Hop) as H.
+  destruct (pending_count (ks_oparg s) (ks_arg s)) as [n hc]. intros Ht. apply H; [exact Ht|reflexivity].
+Qed.
+Print Assumptions C08_failed_motion_noop_patched.
+
+Theorem C08_patch_preserves : forall s k keys m o failed,
+  ks_op s = Some (k, keys) ->
+  let '(n, hc) := pending_count (ks_oparg s) (ks_arg s) in
+  text_object m (bdoc (vbuf (ks_vst s))) n hc = TO o failed ->
+  cancelled o failed = false ->
+  key_step_gen true s (KM m) = key_step_gen false s (KM m).
+Proof. exact patched_same. Qed.
+Print Assumptions C08_patch_preserves.
+
+(* ------------------------------------------------------------------ *)
+(* The text-object functions return the intended span (core subset; from
+   C02's theorems about the Document queries). *)
+
+Theorem C08_span_h : forall d n hc,
+  valid d -> 0 <= n ->
+  let k := Z.min (len (current_line_before_cursor d)) n in
+  text_object T_h d n hc = TO (mk1 (- k)) (k =? 0).
+Proof. exact span_h. Qed.
+Print Assumptions C08_span_h.
+
+Theorem C08_span_l : forall d n hc,
+  valid d -> 0 <= n ->
+  let k := Z.min n (len (current_line_after_cursor d)) in
+  text_object T_l d n hc = TO (mk1 k) (k =? 0).
+Proof. exact span_l. Qed.
+Print Assumptions C08_span_l.
+
+Theorem C08_span_zero : forall d n hc,
+  valid d ->
+  let k := len (current_line_before_cursor d) in
+  text_object T_zero d n hc = TO (mk1 (- k)) (k =? 0) /\
+  mem_Z NL (current_line_before_cursor d) = false.
+Proof. exact span_zero. Qed.
+Print Assumptions C08_span_zero.
+
+Theorem C08_span_dollar : forall d n hc,
+  valid d ->
+  let k := len (current_line_after_cursor d) in
+  text_object T_dollar d n hc = TO (mk1 k) (k =? 0) /\
+  mem_Z NL (current_line_after_cursor d) = false /\
+  (dcur d + k = len (dtext d) \/ nth_error (dtext d) (Z.to_nat (dcur d + k)) = Some NL).
+Proof. exact span_dollar. Qed.
+Print Assumptions C08_span_dollar.
+
+Theorem C08_span_caret : forall d n hc,
+  valid d ->
+  exists v, text_object T_caret d n hc = TO (mk1 v) (v =? 0) /\
+            - len (current_line_before_cursor d) <= v <= len (current_line_after_cursor d).
+Proof. exact span_caret. Qed.
+Print Assumptions C08_span_caret.
+
+(* w / W: the count-th word start after the cursor, else the end of the text *)
+Theorem C08_span_w : forall d n hc W l,
+  valid d -> 1 <= n ->
+  enumerates (fun j => dcur d < j /\ word_start (word_cls W) (dtext d) j) l ->
+  text_object (T_w W) d n hc =
+  match pick l n with
+  | Some j => TO (mk1 (j - dcur d)) false
+  | None => TO (mk1 (len (dtext d) - dcur d)) (len (dtext d) - dcur d =? 0)
+  end.
+Proof. exact span_w. Qed.
+Print Assumptions C08_span_w.
+
+(* b / B: the count-th word start before the cursor, nearest first; else failure *)
+Theorem C08_span_b : forall d n hc W l,
+  valid d -> 1 <= n ->
+  enumerates (fun j => j < dcur d /\ word_start (word_cls W) (dtext d) j) l ->
+  text_object (T_b W) d n hc =
+  match pick (rev l) n with
+  | Some j => TO (mk1 (j - dcur d)) false
+  | None => TO (mk1 0) true
+  end.
+Proof. exact span_b. Qed.
+Print Assumptions C08_span_b.
+
+(* e / E: inclusive, the last character of the count-th word ending after the
+   character under the cursor; else failure (with the inclusive default) *)
+Theorem C08_span_e : forall d n hc W l,
+  valid d -> 1 <= n ->
+  enumerates (fun j => dcur d + 1 < j /\ word_end (word_cls W) (dtext d) j) l ->
+  text_object (T_e W) d n hc =
+  match pick l n with
+  | Some j => TO (mkto (j - 1 - dcur d) 0 INCL) false
+  | None => TO (mkto 0 0 INCL) true
+  end.
+Proof. exact span_e. Qed.
+Print Assumptions C08_span_e.
+
+(* f / t / F: the count-th occurrence on the cursor line (l = the greedy list
+   of occurrences in the scanned text, C02's find_exact) *)
+Theorem C08_span_f : forall d n hc ch l,
+  greedy (occ ceq_exact [ch] (find_scanned d true false)) (fstep [ch]) 0 l ->
+  text_object (T_f ch) d n hc =
+  if len (current_line_after_cursor d) =? 0 then TO (mk1 0) true
+  else match nth_match l n with
+       | Some p => if p + 1 =? 0 then TO (mk1 0) true else TO (mkto (p + 1) 0 INCL) false
+       | None => TO (mk1 0) true
+       end.
+Proof. exact span_f. Qed.
+Print Assumptions C08_span_f.
+
+Theorem C08_span_t : forall d n hc ch l,
+  greedy (occ ceq_exact [ch] (find_scanned d true false)) (fstep [ch]) 0 l ->
+  text_object (T_t ch) d n hc =
+  if len (current_line_after_cursor d) =? 0 then TO (mk1 0) true
+  else match nth_match l n with
+       | Some p => if p + 1 =? 0 then TO (mk1 0) true else TO (mkto (p + 1 - 1) 0 INCL) false
+       | None => TO (mk1 0) true
+       end.
+Proof. exact span_t. Qed.
+Print Assumptions C08_span_t.
+
+Theorem C08_span_F : forall d n hc ch l,
+  greedy (occ ceq_exact (rev [ch]) (rev (current_line_before_cursor d))) (fstep [ch]) 0 l ->
+  text_object (T_F ch) d n hc =
+  match nth_match l n with
+  | Some p => excl0 (- p - 1)
+  | None => TO (mk1 0) true
+  end.
+Proof. exact span_F. Qed.
+Print Assumptions C08_span_F.
 
 (* ------------------------------------------------------------------ *)
 (* Tables regenerated from the repo on every run (gen/gen_t_c08.py). *)
